@@ -19,7 +19,7 @@ Oracle, per iteration and per descriptor object (statement clauses quoted):
     whose poll call was interrupted by an injected EINTR do not count), after that it is a violation (C10/missing/...);
   * "addressed to the channel of the component that registered it" (C10/channel/...);
   * "Discarded or closed descriptors produce no further events even when their number is reused by a new descriptor": no event may name
-    a discarded object; for an object closed WITHOUT discard no _read/_write may name it (C10/unexpected/<event>/closed...);
+    a discarded object; for an object closed WITHOUT discard no _read/_write may name it (C10/closed/<state of the object>/<poller>);
   * deliberate, narrow relaxation: for a descriptor whose peer has hung up or reset, `_disconnect` in place of the readiness events is
     accepted (Poll/EPoll report HUP, Select cannot); once a poller has reported `_disconnect` for it, it may stay silent about it (it
     discards the descriptor itself).  Nothing else is relaxed;
@@ -200,7 +200,7 @@ def run_history(ctx, plan, P, avoid_close):
                 tr('discard(%s) - the descriptor was closed earlier without discard', dname(x))
                 ctx.stat('late-discard')
                 poller.discard(x['a'])
-                x['discarded'] = True
+                x['discarded'] = x['late'] = True
                 return
         if d is None:
             open_pair(i)
@@ -332,17 +332,18 @@ def run_history(ctx, plan, P, avoid_close):
                     fail('C10/unexpected/%s/foreign-object/%s' % (evname, name), 'the poller fired %s for %r, which is not a descriptor of the pool' % (evname, obj))
                 ctx.log('ev', no, evname, d['ord'], ','.join(c if isinstance(c, str) else type(c).__name__ for c in chans))
                 tr('    fired: %s(%s) -> %r', evname, dname(d), chans)
-                if d['state'] == 'closed' or not registered(d):
+                if d['state'] == 'closed':
                     # "Discarded or closed descriptors produce no further events even when their number is reused by a new descriptor"
-                    if d['state'] == 'closed' and not d['discarded'] and d['was_registered'] and evname == '_disconnect':
+                    if not d['discarded'] and d['was_registered'] and evname == '_disconnect':
                         continue        # the poller noticing that a registered descriptor was closed under it (accepted, see ASSUMPTIONS)
-                    if d['state'] == 'closed':
-                        what = ('closed-after-discard' if d['discarded'] else AVOID_CLOSE if d['was_registered'] else 'closed-unregistered') + \
-                            ('-number-reused' if d.get('reused') else '')
-                    else:
-                        what = 'discarded' if d['discarded'] and d['lastop'] == 'discard' else 'not-registered-after-%s' % d['lastop']
-                    fail('C10/unexpected/%s/%s/%s' % (evname, what, name), '%s fired for %s, which is %s%s' % (
-                        evname, dname(d), what, ' (its number has been handed out again%s)' % (' to %s' % dname(numbers[d['no']]) if numbers[d['no']] is not d else ' to the peer end of a new pair') if d.get('reused') else ''))
+                    what = ('%s-then-discarded' % AVOID_CLOSE if d.get('late') else 'closed-after-discard' if d['discarded'] else AVOID_CLOSE if d['was_registered']
+                            else 'closed-unregistered') + ('-number-reused' if d.get('reused') else '')
+                    fail('C10/closed/%s/%s' % (what, name), '%s fired for %s, which is %s%s' % (
+                        evname, dname(d), what, ' (its number has been handed out again%s)' % (
+                            ' to %s' % dname(numbers[d['no']]) if numbers[d['no']] is not d else ' to the peer end of a new pair') if d.get('reused') else ''))
+                if not registered(d):
+                    what = 'discarded' if d['discarded'] and d['lastop'] == 'discard' else 'not-registered-after-%s' % d['lastop']
+                    fail('C10/unexpected/%s/%s/%s' % (evname, what, name), '%s fired for %s, which is %s' % (evname, dname(d), what))
                 if evname == '_disconnect':
                     if not d['hup']:
                         fail('C10/unexpected/_disconnect/peer-not-hung-up/%s' % name, '_disconnect fired for %s whose peer is still there' % dname(d))
